@@ -819,10 +819,12 @@ theorem readySeq_childCmd {s : Ca} (hu : UsedInv s) {c : Cmd} {evs : List Ev}
       simp only [hg] at h
       split at h
       · cases h
-      · simp only [Except.ok.injEq] at h; subst h
-        exact readySeq_of_all (by
-          intro e he; simp at he; subst he
-          exact ⟨rfl, ready_childMapping n m (by simp [hg])⟩)
+      · split at h
+        · cases h
+        · simp only [Except.ok.injEq] at h; subst h
+          exact readySeq_of_all (by
+            intro e he; simp at he; subst he
+            exact ⟨rfl, ready_childMapping n m (by simp [hg])⟩)
   | childCertify ch childRcn ki limit na =>
     simp only [Ca.process] at h
     cases hg : get s.children ch with
@@ -840,7 +842,9 @@ theorem readySeq_childCmd {s : Ca} (hu : UsedInv s) {c : Cmd} {evs : List Ev}
       · simp only [Except.ok.injEq] at h; subst h; trivial
       · rename_i hcls
         split at h
-        · cases h
+        · split at h
+          · simp only [Except.ok.injEq] at h; subst h; trivial
+          · cases h
         · simp only [Except.ok.injEq] at h; subst h
           cases hrc : get s.classes (cd.nameInParent childRcn) with
           | none => simp [hrc] at hcls
@@ -1447,21 +1451,27 @@ theorem exec_stored_iff {s s' : Sys} {c : Cmd} {evs : List Ev} :
           cases h1; cases h2
           exact ⟨rfl, rfl⟩
 
-/-- A revocation request outside `RevokeOk` is never stored: the listener refuses (class still
-pending). -/
+/-- A revocation request outside `RevokeOk` never changes anything: the listener refuses (class
+still pending), or - since fix 7be8c4c6 - the key was revoked by this CA before and the request
+is confirmed without an event. -/
 theorem bad_revoke_not_stored {s : Sys} (hinv : Inv s) {c : Cmd} (hbad : ¬ RevokeOk s.ca c)
-    {evs : List Ev} {s' : Sys} : s.exec c ≠ .stored evs s' := by
-  intro hst
+    {evs : List Ev} {s' : Sys} (hst : s.exec c = .stored evs s') : s' = s := by
   obtain ⟨hp, hr⟩ := exec_stored_iff.mp hst
   cases c with
   | childRevokeKey ch childRcn ki =>
     simp only [RevokeOk] at hbad
     simp only [Ca.process] at hp
-    apply hbad
+    refine Classical.byContradiction fun hne => hbad ?_
     intro cd rc hcd hg
     simp only [hcd, hg, Option.isSome_some, Bool.not_true, Bool.false_eq_true, if_false] at hp
     split at hp
-    · cases hp
+    · split at hp
+      · -- the key was revoked by this CA before: confirmed without events - but then nothing
+        -- is stored for a pending class either; `RevokeOk` is about the class having a current key
+        simp only [Except.ok.injEq] at hp; subst hp
+        simp only [Sys.runEvs, Option.some.injEq] at hr
+        exact absurd hr.symm hne
+      · cases hp
     · simp only [Except.ok.injEq] at hp; subst hp
       obtain ⟨ca', o'⟩ := s'
       obtain ⟨ha, ho⟩ := runEvs_some_iff.mp hr
@@ -1477,7 +1487,7 @@ theorem bad_revoke_not_stored {s : Sys} (hinv : Inv s) {c : Cmd} (hbad : ¬ Revo
         cases hk : rc.keys with
         | pending p => rw [hk] at hm; have := ksMirror_pending.mp hm; cases this
         | _ => simp [KeyState.current]
-  | _ => exact hbad trivial
+  | _ => exact absurd trivial hbad
 
 /-- The events of a revocation request are applied by `apply` whatever the state of the class
 (the listener is the one that may refuse). -/
@@ -1492,7 +1502,9 @@ theorem revoke_applies {s : Ca} {ch : Handle} {childRcn : Rcn} {ki : KeyId} {evs
     · simp only [Except.ok.injEq] at h; subst h; rfl
     · rename_i hcls
       split at h
-      · cases h
+      · split at h
+        · simp only [Except.ok.injEq] at h; subst h; rfl
+        · cases h
       · simp only [Except.ok.injEq] at h; subst h
         cases hrc : get s.classes (cd.nameInParent childRcn) with
         | none => simp [hrc] at hcls
